@@ -3,13 +3,15 @@ from . import gen, solved, sysdesc
 
 
 def make(ns, *, cols, textcols, oracle, gen_fn, solve_kw=None, counts=(250, 5000), search_gen=None,
-         nontrivial=None, extra_case=None, sweeps=True):
+         nontrivial=None, extra_case=None, sweeps=True, mismatch_filter=None):
     def per_case(ctx, desc, obs, model, sys_, df, kw):
         nt = nontrivial(desc, obs) if nontrivial else len(desc["comps"]) >= 3
         ctx.case(key=solved.desc_key(desc) + [repr(sorted(kw.items()))], nontrivial=nt,
                  sample={"components": [(c["kind"], c["name"], c["parents"]) for c in desc["comps"]],
                          "phases": list((desc.get("phases") or {}).keys()), "solve_kw": kw})
         for m in solved.compare_tables(obs, model, cols=cols, textcols=textcols):
+            if mismatch_filter is not None and mismatch_filter(ctx, desc, obs, m):
+                continue
             ctx.corr(desc, "table-assembly: %s" % m["col"], m)
         if sweeps:
             solved.sweep_residuals(ctx, desc, obs, model, kw.get("vtol", 1e-6), kw.get("itol", 1e-6))
